@@ -23,14 +23,155 @@ def h_roundtrip(I, job):
     I.reach('end')
 
 
+
+# ---------------------------------------------------------------- strict coordinate parsing against an exact reference
+ZERO_EXP_BOUND = 40
+LIM_INT, LIM_FRAC, LIM_EXP = 10, 27, 5        # digit counts the library documents as accepted (beyond: either verdict, but never a wrong value)
+
+
+def is_digit(I, b):
+    return I.decide(I.icmp('uge', 8, b, 48), 'cls') and I.decide(I.icmp('ule', 8, b, 57), 'cls')
+
+
+def is_char(I, b, *chars):
+    for c in chars:
+        if I.decide(I.icmp('eq', 8, b, c), 'cls'): return True
+    return False
+
+
+def dig(I, b):
+    """digit value of byte b (already known to be a digit) as an Int term"""
+    return I.term(b, 8) - 48 if I.mode == 'INT' else z3.BV2Int(I.term(b, 8)) - 48
+
+
+def scan_reference(I, byte_at):
+    """scan the grammar  -?(D+(.D*)?|.D+)([eE]-?D+)?  forking on byte classes; returns None (no grammar prefix) or
+    (neg, int_digits, frac_digits, has_exp, eneg, exp_digits, consumed)"""
+    p = 0; neg = False
+    if is_char(I, byte_at(p), 45): neg = True; p += 1
+    ID = []; FD = []; ED = []; has_exp = False; eneg = False
+    if is_char(I, byte_at(p), 46):
+        if not is_digit(I, byte_at(p + 1)): return None
+    else:
+        if not is_digit(I, byte_at(p)): return None
+        while is_digit(I, byte_at(p)): ID.append(byte_at(p)); p += 1
+    if is_char(I, byte_at(p), 46):
+        p += 1
+        while is_digit(I, byte_at(p)): FD.append(byte_at(p)); p += 1
+    if is_char(I, byte_at(p), 101, 69):
+        has_exp = True; p += 1
+        if is_char(I, byte_at(p), 45): eneg = True; p += 1
+        if not is_digit(I, byte_at(p)): return None
+        while is_digit(I, byte_at(p)): ED.append(byte_at(p)); p += 1
+    return (neg, ID, FD, has_exp, eneg, ED, p)
+
+
+def coord_reference(I, sc):
+    """exact decimal semantics: returns ('reject',) | ('value', Int term r_signed) | ('either',) ; forks on the decimal exponent"""
+    neg, ID, FD, has_exp, eneg, ED, p = sc
+    digs = ID + FD
+    M = z3.IntVal(0)
+    for b in digs: M = M * 10 + dig(I, b)
+    M = z3.simplify(M)
+    E = z3.IntVal(0)
+    for b in ED: E = E * 10 + dig(I, b)
+    if eneg: E = -E
+    K = z3.simplify(E - len(FD) + 7)               # r = round_half_up(M * 10^K)
+    beyond = len(ID) > LIM_INT or len(FD) > LIM_FRAC or len(ED) > LIM_EXP
+    Ks = Sym(K, 32) if z3.is_int_value(K) is False else K.as_long()
+    if isinstance(Ks, Sym):
+        if I.decide(Sym(K > 10, 1), 'K>10'): kcls = 'big'
+        elif I.decide(Sym(K < -39, 1), 'K<-39'): kcls = 'tiny'
+        else:
+            # enumerate the remaining decimal exponents (at most 50 values)
+            off = Sym(z3.simplify(K + 39), 32) if I.mode == 'INT' else None
+            kv = I.decide_value(off, 'decimal exponent', cap=64) - 39
+            kcls = kv
+    else:
+        kcls = 'big' if Ks > 10 else ('tiny' if Ks < -39 else Ks)
+    if kcls == 'big':
+        # M * 10^11 or more: representable only if M == 0
+        if I.decide(Sym(M == 0, 1), 'M==0'):
+            r = z3.IntVal(0)
+            I.assume_feasible(K <= ZERO_EXP_BOUND)      # the scale loop runs K times on a zero mantissa: trip count bounded here (stated bound)
+        else: return ('either',) if beyond else ('reject',)
+    elif kcls == 'tiny': r = z3.IntVal(0)
+    elif kcls >= 0: r = M * (10 ** kcls)
+    else: r = (M + 5 * 10 ** (-kcls - 1)) / (10 ** (-kcls))
+    r = -r if neg else r
+    if beyond: return ('either-or-value', r)
+    inrange = I.decide(Sym(z3.And(r >= -(1 << 31), r <= (1 << 31) - 1), 1), 'range')
+    return ('value', r) if inrange else ('reject',)
+
+
+def h_parse(I, job):
+    if I.mode != 'INT': raise Finding('harness', 'INT mode only')
+    L = job['len']
+    buf = I.new_obj(L + 1, 'str', 'heap')
+    bs = []
+    for k in range(L):
+        b = I.named('s%d' % k, 8)
+        I.assume(I.term(b, 8) != 0)
+        if isinstance(b, Sym): b.lo = max(b.lo, 1)
+        I.store(buf + k, i8, b); bs.append(b)
+    I.store(buf + L, i8, 0); bs.append(0)
+    sc = scan_reference(I, lambda k: bs[k] if k < len(bs) else 0)
+    ref = ('reject',) if sc is None else coord_reference(I, sc)
+    c = I.new_obj(4, 'c', 'heap'); o = I.new_obj(4, 'o', 'heap')
+    fn = job.get('fn', 'partial')
+    if fn == 'partial':
+        rc = I.concretize(I.call('@verif_parse_coord', [buf, c, o]), 'rc')
+    else:
+        rc = I.concretize(I.call('@verif_set_lon', [buf, o]), 'rc')
+        if sc is not None and not (isinstance(bs[sc[6]], int) and bs[sc[6]] == 0) and ref[0] != 'reject':
+            ref = ('reject',)          # set_lon: characters after the number are an error
+    I.observe('rc', rc)
+    I.reach('end')
+    if rc == 0:
+        ov = I.load(o, i32); I.observe('value', ov)
+        if ref[0] == 'reject':
+            raise Finding('accepts-invalid', 'library accepts a string the decimal reference rejects (out of range or not in the grammar)')
+        if ref[0] in ('value', 'either-or-value'):
+            sv = I.signed_t(I.term(ov, 32), 32)
+            I.obligation(sv == ref[1], 'wrong-value', 'library result differs from exact decimal rounding')
+        if fn == 'partial':
+            cv = I.load(c, i32); I.observe('consumed', cv)
+            I.obligation(I.icmp('eq', 32, cv, sc[6]), 'consumed', 'consumed prefix is not the grammar prefix')
+        I.reach('accepted')
+    else:
+        if ref[0] == 'value':
+            raise Finding('rejects-valid', 'library rejects a grammar-valid, in-range coordinate')
+        I.reach('rejected')
+
+
+def lit(s):
+    return dict(_job=len(s) - 1, **{'s%d' % k: ch for k, ch in enumerate(s.encode())})
+
+
+def gen_parse(maxlen):
+    def g(rnd):
+        out = []
+        for _ in range(30):
+            L = rnd.randint(1, maxlen)
+            out.append(lit(''.join(rnd.choice('0123456789.-eE9x ') for _ in range(L))))
+        return out
+    return g
+
+
 def gen_rt(rnd):
     return [{'x': rnd.getrandbits(32)} for _ in range(20)]
 
 
 def harnesses(tier):
+    maxlen = 5 if tier == 'quick' else 7
     return [
         Harness('coord_roundtrip', 'text', h_roundtrip, mode='INT', desc='for all int32 x: parse(format(x)) == x and fully consumed',
                 bounds='none on x (all 2^32 values, decided per control-flow path)',
                 tests=[{'x': v & 0xffffffff} for v in (0, 1, -1, 10, 1800000000, -1800000000, 2147483647, -2147483648, 1234567, 100000000, 99999999)],
                 testgen=gen_rt, wall=900),
+        Harness('coord_parse_short', 'text', h_parse, mode='INT', jobs=[{'len': L} for L in range(1, maxlen + 1)],
+                desc='every NUL-free byte string of length <= %d: string_to_location_coordinate == exact decimal reference (value, acceptance, consumed prefix); nsw overflow obligations on every path' % maxlen,
+                bounds='string length <= %d bytes; zero mantissa with decimal exponent > %d excluded (loop trip count)' % (maxlen, ZERO_EXP_BOUND), reach=('end', 'accepted', 'rejected'), sanitize=True,
+                tests=[lit(x) for x in ('1', '-1', '1.5', '.5', '1e2', '1E-2', '-', '1e', '99e9', '180', '214.7', '-214.8', '1.2e1', '0.00000', '1e-9', '5e-8', '4e-8') if len(x) <= maxlen],
+                testgen=gen_parse(maxlen), wall=900 if tier == 'quick' else 3000),
     ]
